@@ -460,5 +460,8 @@ def shape(scenario, history):
     faults = sum(1 for e in history if e["k"] == "attempt_end" and e["status"] != "OK")
     codes = tuple(e["status"] for e in history if e["k"] == "attempt_end")
     kinds = tuple((e["k"], e.get("op")) for e in history)
+    fired = {"status_code": faults, "attempt_deadline_fired": sum(1 for e in history if e["k"] == "attempt_end" and e["status"] == "DEADLINE_FIRED")}
+    if scenario.get("overshoot"):
+        fired["sleep_overshoot"] = sum(1 for e in history if e["k"] == "sleep")
     return {"nontrivial": faults > 0, "key": (scenario["client"], codes, len(scenario["actors"])),
-            "interleaving": kinds, "faults": {"grpc_status": faults}}
+            "interleaving": kinds, "faults": fired}
